@@ -237,7 +237,7 @@ class Interp:
             return tuple(self.hashable(x) for x in v.items)
         if isinstance(v, VClass):
             return ("class", v.qualname)
-        raise Unsupported("symbolic dict key %r" % (v,))
+        raise Unsupported("symbolic dict key of type %s" % self.type_name(v))
 
     def e_Attribute(self, e, fr):
         base = self.eval(e.value, fr)
@@ -295,13 +295,12 @@ class Interp:
             t = self.truthy(c)
             if is_conc(t):
                 return self.eval(e.body if t else e.orelse, fr)
+            # a choice the path condition already fixes is resolved (keeps ropes and slice bounds simple)
+            if self.st.proves(zbool(t)):
+                return self.eval(e.body, fr)
+            if self.st.proves(z3.Not(zbool(t))):
+                return self.eval(e.orelse, fr)
             a, b = self.eval(e.body, fr), self.eval(e.orelse, fr)
-            if isinstance(a, VSeq) and isinstance(b, VSeq):
-                # sequence-valued choice: keep the rope of the branch the path condition already fixes
-                if self.st.proves(zbool(t)):
-                    return a
-                if self.st.proves(z3.Not(zbool(t))):
-                    return b
             return self.ite(t, a, b)
         if self.st.decide(self.truthy(c)):
             return self.eval(e.body, fr)
